@@ -23,3 +23,21 @@ func reducerBroadcasted(y tensor.Tensor, x tensor.Tensor, dim int) (o tensor.Ten
 
 	return o, nil
 }
+
+// patchedRegion is the block of the patched tensor occupied by source p: along
+// a dimension whose range is omitted or {0,0}, Patch writes p at offset 0,
+// whereas Slice would read the whole dimension.
+func patchedRegion(index []tensor.Range, p tensor.Tensor) (region []tensor.Range) {
+	shape := p.Shape()
+	region = make([]tensor.Range, len(shape))
+
+	for i := range region {
+		if i >= len(index) || (index[i].From == 0 && index[i].To == 0) {
+			region[i] = tensor.Range{From: 0, To: shape[i]}
+		} else {
+			region[i] = index[i]
+		}
+	}
+
+	return region
+}
